@@ -3,6 +3,7 @@ use std::process::Command;
 use time::OffsetDateTime;
 
 fn main() {
+    println!("cargo::rustc-check-cfg=cfg(cicada_verif)");
     match Command::new("git")
         .args(["rev-parse", "--short", "HEAD"])
         .output()
